@@ -16,7 +16,8 @@ from ..runner import Skip
 RULE = ("cases from rng(seed, 16, 0, i): 4 of 5 cases evaluate BaseEdge.calc_jacobians on one custom edge (7 error families x pose types r2/r3/se2/se3, poses with |t| up to 1e3, "
         "generic rotations, a fifth of them with a bit-exactly zero residual; vertices sometimes flagged fixed; a fifth of the custom edges configure their own step 1e-5..1e-8 (the bound then uses that step); sometimes after an unrelated differentiation was aborted by an exception inside its error function) and on built-in odometry/landmark edges; 1 of 5 optimizes a cluster graph whose custom edges use numerical Jacobians and its AD twin "
         "(tol=1e-12, max_iter=50) inside the C05 neighbourhood. distinct = fingerprint of the edge operands / spec; non-trivial = Jacobian with a non-zero rotational block "
-        "or twin graphs that moved by > 1e-6.")
+        "or twin graphs that moved by > 1e-6."
+        " later additions: held Jacobians stay valid, optimum-shift tolerance derived from the ideal forward-difference error.")
 REQ = ["eval:returned-jacobians-stay-valid", "eval:numerical-jacobian-accuracy", "eval:twin-optimum-agrees", "eval:twin-chi2-agrees"] + ["family:" + n for n in custom.TYPES if n not in ("faulty", "robustprior")] + ["family:builtin-odometry", "family:builtin-landmark",
                                                                                                                           "class:ternary", "class:unary", "kind:se3", "kind:se2", "class:exactly_zero_residual", "class:aliased_pose_objects", "class:evaluated_again_after_edits", "class:fixed_vertex", "class:edge_configures_its_own_step", "class:earlier_differentiation_aborted_by_edge_fault"]
 PLAN = {
